@@ -29,5 +29,5 @@ Print Assumptions agreement_from_certificates.
    primary is replayed on the real library by `verifh fork`, known findings D1f/D1fa) *)
 Theorem certificate_premise_refuted_at_node_level :
   exists cfg st ev sc st' tr s, Reach cfg st /\ step cfg st ev sc = Ok (st', tr) /\ In s (handed_over_at tr) /\ (valid_commits s < Mq s)%Z.
-Proof. exact (refutes_sound d1_cfg d1 d1_refutes). Qed.
+Proof. exact (ex_intro _ d1_cfg (refutes_sound d1_cfg d1 d1_refutes)). Qed.
 Print Assumptions certificate_premise_refuted_at_node_level.
